@@ -156,8 +156,40 @@ def _write(det, bucket: str, arr) -> None:
             dims=("wavelength", "y", "x"),
             coords={"wavelength": [500.0 + 10.0 * k for k in range(nw)]},
         )
+    elif bucket == "photon+":
+        # in-place accumulation through the container's += operator
+        try:
+            det.photon.array  # noqa: B018 - initialised 2-D?
+            det.photon += arr
+        except (ValueError, TypeError):
+            det.photon.array = arr
+    elif bucket == "photon3d+":
+        import xarray as xr
+
+        nw = arr.shape[0]
+        da = xr.DataArray(arr, dims=("wavelength", "y", "x"), coords={"wavelength": [500.0 + 10.0 * k for k in range(nw)]})
+        try:
+            det.photon.array_3d  # noqa: B018
+            det.photon += da
+        except (ValueError, TypeError):
+            det.photon.array_3d = da
     elif bucket == "charge":
         det.charge.add_charge_array(arr)
+    elif bucket == "clusters":
+        n = 2
+        rows, cols = det.geometry.row, det.geometry.col
+        pv, ph = det.geometry.pixel_vert_size, det.geometry.pixel_horz_size
+        det.charge.add_charge(
+            particle_type="e",
+            particles_per_cluster=np.array([float(arr[0, 0]), float(arr[-1, -1])]),
+            init_energy=np.zeros(n),
+            init_ver_position=np.array([0.5 * pv, (rows - 0.5) * pv]),
+            init_hor_position=np.array([0.5 * ph, (cols - 0.5) * ph]),
+            init_z_position=np.zeros(n),
+            init_ver_velocity=np.zeros(n),
+            init_hor_velocity=np.zeros(n),
+            init_z_velocity=np.zeros(n),
+        )
     elif bucket == "pixel":
         try:
             det.pixel.array = det.pixel.array + arr
